@@ -78,6 +78,8 @@ def unit_fn(unit):
         rec = out[1]
         model = st.witness_model()
         if model is None:
+            if getattr(st, 'last_status', '') == 'unknown':
+                ur.res['unknown'] += 1
             ur.outcome('no-witness')     # path infeasible under the full condition, or solver unknown (counted in st.unknown)
             continue
         xs = E.model_str(model, rec['x'])
